@@ -33,16 +33,28 @@ MANIFEST = {
             "number of steps (no endless exchange between two servers), the client caches "
             "exactly what was answered; a lookup and an NTP time request end to end between two nodes succeed exactly when the "
             "server and the client are RUNNING on ON nodes with the frames accepted, and otherwise change nothing. "
+            "ROUND 4: web browser / web server payload processing is modelled and proved (GET -> DNS lookup -> HTTP request -> database "
+            "verdict -> status code; response_codes, latest_response, history, the server's health write; a fetch end to end), a "
+            "payload may write the receiver's own health_state_actual and nothing else of the lifecycle layer (LifeEq invariants); "
+            "the attack loops of DoSBot / DataManipulationBot / RansomwareScript are modelled as stage machines and proved to act "
+            "(connect, query, draw a trial) only on a RUNNING instance of an ON node; every apply_timestep override below Software "
+            "calls super().apply_timestep on EVERY path (path analysis, obligation C13_gen_tick_overrides) so the countdown "
+            "theorems speak about every shipped class; the translated receive path equals Node.receivers on every reachable node "
+            "(no hypothesis); the transport terminates for every pair of nodes built from shipped classes (the bound on programs "
+            "per node follows from the regenerated class registry). "
             "CONNECTION BOOKKEEPING (add_connection / terminate_connection): health becomes OVERWHELMED exactly when a connection is "
             "requested at max_sessions; the table never exceeds max_sessions. "
             "Tie: guard tables, validators, countdown idioms, enum values, defaults, the shipped-class table (every receive() "
             "guarded), install guard / eviction / class-map writes / uninstall clean-ups, the docs masking table, the translated "
             "functions and the normalised bodies of the class methods the payload model follows (Gen/Software.lean, "
             "Gen/SoftwareRecv.lean, obligations C13_gen_*); differential rigs: R-svc on real Computer, Server, Router, Switch and "
-            "Firewall nodes over every shipped class; R-recv on two real hosts joined by a real link (real receive of the four "
-            "modelled classes, real NIC/ARP/HostNode/SessionManager/SoftwareManager transport); R-conn on real instances.",
-    "note": "C13-specific: payload processing is modelled for DNS and NTP client/server only — web browser / web server, FTP client / "
-            "server, database, terminal, C2, the bots are followed only as far as routing and the running-guard; two-node exchanges are "
+            "Firewall nodes over every shipped class; R-recv on two real hosts joined by a real link (real receive of the six "
+            "modelled classes, real NIC/ARP/HostNode/SessionManager/SoftwareManager transport); R-conn and R-bot on real instances.",
+    "note": "C13-specific: payload processing is modelled for DNS, NTP and web client/server and the three attack loops — FTP client / "
+            "server (STOR / RETR, files), database service / client, terminal (C16), the C2 beacon / server state machine are followed "
+            "only as far as routing and the running-guard; the web server's database access enters as a verdict (is a database client "
+            "installed, what connection it hands out, do its queries succeed: C17's subject), the bots' random trials as inputs (C19's); "
+            "URLs are taken as parsed (urlparse is trusted); two-node exchanges are "
             "modelled over an IDEAL transport (both nodes ON, peer's frame filter accepts; ARP, links, NIC state, ACLs are C08/C12/C18's "
             "subject) and the rig uses instant power transitions there; the exchange started by an NTP client inside "
             "Node.apply_timestep is modelled at its place in the per-service loop only while no power countdown is pending; "
@@ -54,7 +66,7 @@ MANIFEST = {
                  "tables, by source-to-Lean translation of the software manager's functions and by three differential rigs",
     "design_ref": "5/C13",
 }
-MODULES = ["PrimaiteModel.Props.C13", "PrimaiteModel.Lemmas.RegistriesRep", "PrimaiteModel.Props.C13Recv"]
+MODULES = ["PrimaiteModel.Props.C13", "PrimaiteModel.Lemmas.RegistriesRep", "PrimaiteModel.Props.C13Recv", "PrimaiteModel.Props.C13Bots"]
 EXE = "drv_c13"
 EXE_W = "drv_c13recv"   # two nodes with class data and a transport (receive path, DNS / NTP payload processing)
 
@@ -243,6 +255,11 @@ def replay(rec: dict) -> bool:
         from harness.lib.core import lake_build
         lake_build([EXE, EXE_W])
     guards = _guards()
+    if "bot_case" in r:
+        res = wrig.run_bot_case(r["bot_case"])
+        if r.get("oracle"):
+            return not res["oracle"]
+        return (run_driver(EXE_W, res["lines"]) if res["lines"] else []) == res["impl"]
     if "conn_case" in r:
         res = wrig.run_conn_case(r["conn_case"])
         if r.get("oracle"):
@@ -347,6 +364,8 @@ def run(ctx: Ctx):
         for durs in dur_list:
             for k, c in enumerate(rig.exhaustive_cases(depth, t, durs, kind)):
                 cases.append((f"exh:{kind}:{t}:{depth}:{durs}:{k}", c))
+    for k, c in enumerate(rig.timing_cases()):   # every shipped class: its timed transition and an interrupted fix
+        cases.append((f"timing:{k}", c))
     n = ctx.scale(250, 5000)
     rng = ctx.rng.fork("svc")
     for k in range(n):
@@ -428,3 +447,29 @@ def run(ctx: Ctx):
                           {"conn_case": dict(c, ops=c["ops"][:j]), "from": "conn"})
     ctx.oblige("rig:R-conn (add_connection / terminate_connection) agrees on every trace", "correspondence", cagree == len(conn_cases),
                f"{len(conn_cases) - cagree} of {len(conn_cases)} traces disagree")
+
+    # -- R-bot: the attack loops of DoSBot / DataManipulationBot / RansomwareScript on real instances in every state
+    brng = ctx.rng.fork("bot")
+    bot_cases = [wrig.gen_bot_case(brng) for _ in range(ctx.scale(240, 4000))]
+    bres = [wrig.run_bot_case(c) for c in bot_cases]
+    lines_all = [l for r in bres for l in r["lines"]]
+    model_all = run_driver(EXE_W, lines_all, timeout=3000) if lines_all else []
+    pos, bagree, bcompared = 0, 0, 0
+    for c, r in zip(bot_cases, bres):
+        ctx.cov["traces_validated_against_impl"] += 1
+        ctx.case({"bot": c}, bool(r["acted"]))
+        ctx.count(f"bot:{c['kind']}:{r['entry']}:{'may-act' if r['can'] else 'may-not-act'}:{'acted' if r['acted'] else 'idle'}")
+        for (kind, detail) in r["oracle"]:
+            ctx.violation({"kind": kind, "bot": c["kind"], "entry": r["entry"]}, f"{kind}: {detail}", {"bot_case": c, "oracle": kind})
+        if r["lines"]:
+            bcompared += 1
+            model = model_all[pos:pos + len(r["lines"])]
+            pos += len(r["lines"])
+            if model == r["impl"]:
+                bagree += 1
+            else:
+                ctx.violation({"kind": "model-vs-impl", "where": "bot-loop", "bot": c["kind"]},
+                              f"attack loop of {c['kind']} differs from the proved model: line={r['lines']!r} impl={r['impl']!r} model={model!r}",
+                              {"bot_case": c, "from": "bot"})
+    ctx.oblige("rig:R-bot (attack loops of the red applications) agrees on every trace", "correspondence", bagree == bcompared,
+               f"{bcompared - bagree} of {bcompared} traces disagree")
